@@ -3,6 +3,7 @@ CONSTANTS
   MaxPieces = 0
   MaxPhrase = 3
   MaxTmpl = 5
+  MaxDeep = 0
   Hosts = {"tmpl", "tmpl_if", "tmpl_for", "tmpl_case", "tmpl_cap"}
   EmitAll = TRUE
 INVARIANTS Emit
